@@ -126,13 +126,24 @@ def atRestAcq (S : PSt) (i : Pid) (k : Nat) : Bool :=
 * in its command body: the handler calls `giveLocks(locks)` for all its locks, then the process dies;
 * during `takeLocks`, while it is about to call `mkdir` on path element `k` (between stacks, or in the retry wait for a
   contended stack): the handler gives up the `k` locks taken on the earlier elements, then the process dies;
-* elsewhere (in the middle of an attempt, inside `giveLocks`) not modelled. -/
+* inside `giveLocks` (the command's own call or the exit handler's), about to start on a lock: the handler's pass over
+  the same list releases that lock and the remaining ones, then the process dies (D12i: the lock used to be off the
+  list already);
+* elsewhere (in the middle of an attempt, or of the release of one lock) not modelled. -/
 def mintr (S : PSt) (i : Pid) : PSt :=
   match S.ctl i with
   | .body n _ => if n = 0 then setCtl S i (.fin .killed) else setCtl S i (.rel 0 n false .killed)
   | .acq k =>
     if atRestAcq S i k then (if k = 0 then setCtl S i (.fin .killed) else setCtl S i (.rel 0 k false .killed))
     else S
+  | .rel j n _ o =>
+    -- inside `giveLocks`, about to start on `locks[j]` (still on the list): the handler's pass releases it and the
+    -- rest, then the process dies
+    if o == .killed then S      -- the handler is running already (a process is signalled once)
+    else
+      match (S.path i)[j]? with
+      | some d => (match (S.comp d).pc i with | .hold => setCtl S i (.rel j n false .killed) | _ => S)
+      | none => S
   | _ => S
 
 inductive MEv
